@@ -106,6 +106,28 @@ def check_space(ctx, sp, periodic, rng, quick, stats):
                 ctx.violation({"kind": "interpolant-raises", "path": sp.kind, "error": type(ex).__name__, "complex": True},
                               "complex compute_interpolant raised %s: %s on %s" % (type(ex).__name__, ex, sp.key()), {"space": sp.key()})
             ctx.count((sp.key(), "complex", a, h))
+        # real data through every pairing of interpolator dtype and spline dtype (clamped): the result does not depend on it
+        if interc is not None:
+            import warnings
+            u = np.array([float(rng.randint(-9, 9)) for _ in range(n)])
+            for it, sdt, tag in ((interc, float, "complex-interpolator/real-spline"), (interp, complex, "real-interpolator/complex-spline"),
+                                 (interc, complex, "complex-interpolator/complex-spline/real-data")):
+                s = spl.Spline1D(basis, dtype=sdt)
+                try:
+                    with warnings.catch_warnings():
+                        warnings.simplefilter("ignore")
+                        it.compute_interpolant(u.copy(), s)
+                    cr = [Fr(float(np.real(x))) for x in s.coeffs]
+                    back = np.array([float(v) for v in exact_at(sp, cr, xi)])
+                    im = float(np.max(np.abs(np.imag(s.coeffs)))) if sdt is complex else 0.0
+                    if not (np.max(np.abs(back - u)) <= tolc * 20 and im <= tolc * 20):
+                        ctx.violation({"kind": "data-not-reproduced", "path": sp.kind, "periodic": False, "data": tag},
+                                      "%s: interpolant misses its real data by %g (imaginary part %g) on %s" % (
+                                          tag, float(np.max(np.abs(back - u))), im, sp.key()), {"space": sp.key(), "data": u.tolist()})
+                except Exception as ex:
+                    ctx.violation({"kind": "interpolant-raises", "path": sp.kind, "error": type(ex).__name__, "complex": tag},
+                                  "%s: compute_interpolant raised %s: %s on %s" % (tag, type(ex).__name__, ex, sp.key()), {"space": sp.key()})
+                ctx.count((sp.key(), tag, a, h))
         # (iii) polynomial reproduction on clamped spaces (clamped knots or the fast path's clamped handling)
         if not periodic:
             xt = [Fr(sp.br[0]) + Fr(sp.br[-1] - sp.br[0]) * Fr(k, 12) for k in range(13)]
